@@ -146,6 +146,10 @@ def uses_after_callback(ctx, facts, runners):
                 else:
                     _, c, args, full, line, _stmt = it
                     if c in INCREF or c in DECREF:
+                        # the function's own reference to a parameter keeps
+                        # the object alive between the two
+                        ev.append(("hold" if c in INCREF else "drop",
+                                   args[0] if args else ""))
                         continue
                     ev.append(("call", c, list(args), full))
             evs.append(ev)
@@ -165,7 +169,21 @@ def uses_after_callback(ctx, facts, runners):
                 hit = False
                 for ev in evs:
                     after = False
+                    held = 0
                     for e in ev:
+                        if e[0] in ("hold", "drop"):
+                            if e[1] == prm:
+                                held += 1 if e[0] == "hold" else -1
+                            continue
+                        if held > 0:
+                            # (what runs Python code while the reference is
+                            # held still counts for uses after the release)
+                            if e[0] == "call" and (
+                                    (e[1] in API and API[e[1]]["python"])
+                                    or e[1].startswith("->")
+                                    or e[1] in runners):
+                                after = True
+                            continue
                         if e[0] == "use":
                             if after and any(mentions(t, prm) for t in e[1]):
                                 hit = True
@@ -574,6 +592,21 @@ def analyse_ownership(ctx):
                                                          else 0), msg, p)
             analysed.append((fname, n_paths))
             results[fname] = found
+        # a transparent helper (one call site, spliced into its caller by the
+        # path engine) is judged in the caller's context as far as the
+        # contract of its parameters goes: standing alone, a helper that
+        # consumes a reference handed to it looks like one that releases a
+        # borrowed parameter, and one that hands back what it looked up in a
+        # dictionary like one that gives away a reference it does not own
+        # (every store or steal inside it is seen again, spliced, in the
+        # caller)
+        from ..csym import inlined_helpers
+        for h in inlined_helpers(ctx, facts):
+            hp = {q.name for q in facts.params(h)}
+            for k in [k for k, v in results.get(h, {}).items()
+                      if (v[0] == "release-of-borrowed" and v[1] in hp)
+                      or v[0] == "borrowed-consumed"]:
+                del results[h][k]
         from ..csym import flush_paths
         flush_paths(ctx)
         return facts, results, analysed, skipped
